@@ -147,8 +147,19 @@ def rand_array(rng, shape, cplx=False, fam='gauss'):
     return a
 
 
+def core_cplx(cplx, i, d):
+    """dtype pattern per core: False/True (all cores), 'tail' (core 0 real, the others complex), 'head' (only core 0
+    complex) — real and complex cores mixed inside one tensor train"""
+    if cplx == 'tail':
+        return i > 0
+    if cplx == 'head':
+        return i == 0
+    return bool(cplx)
+
+
 def rand_cores(rng, rows, cols, ranks, cplx=False, fam='gauss'):
-    return [rand_array(rng, (ranks[i], rows[i], cols[i], ranks[i + 1]), cplx, fam) for i in range(len(rows))]
+    d = len(rows)
+    return [rand_array(rng, (ranks[i], rows[i], cols[i], ranks[i + 1]), core_cplx(cplx, i, d), fam) for i in range(d)]
 
 
 def mk_tt(rng, rows, cols, ranks, cplx=False, fam='gauss'):
